@@ -296,8 +296,9 @@ def _winnerless(facts, res):
         return t
 
     def has_winner(l):
-        if l.kind == "variant" and l.variants == {"Some"} and any(x[0] == "call" and x[1] == GW for x in walk(l.term)):
-            return True
+        if l.kind == "variant" and l.variants and l.variants <= {"Some", "Ok", "Continue"} and any(x[0] == "call" and x[1] == GW for x in walk(l.term)) and \
+                not any(x[0] == "call" and callee_name(x) in ("is_none", "map", "and_then", "filter") for x in walk(l.term)):
+            return True     # `if let Some(w) = t.get_winner()`, `t.get_winner().ok_or_else(..)?`
         if l.kind == "call" and callee_name(l.term) in ("is_some", "is_none") and l.truth == (callee_name(l.term) == "is_some") and \
                 any(x[0] == "call" and x[1] == GW for x in walk(l.term)):
             return True
